@@ -23,15 +23,17 @@ RULE = ("One case = one small real Hermitian model (2..6 basis sets, prod(d) <= 
         "state actually moved (||U psi - psi|| >= 1e-3) on a tree with >= 3 nodes; distinct by (scheme, real/imag, tree "
         "shape, model, sector, step).")
 ASSUMPTIONS = [
-    "real Hermitian operators only (TTNO asserts 'complex operator not supported yet'); physical basis sets with nbas >= 2 (todense squeezes size-1 axes); quantum-number labels >= 0 (TTNS.random skips blocks by comparing labels with qntot)",
-    "bond dimensions sufficient to hold the result: TTNS.random with limit prod(d), canonicalise + lossless compress; the Schmidt ranks of the dense vector at every edge equal the bond dimensions (checked), the exact evolved vector fits (checked), compress_config fixed with limit 1e6, normalize=False for the order/exactness oracles, fresh EvolveConfig and CompressConfig for every call",
-    "calibration on the unchanged tree (120 models x 10 tree kinds, ||H||h = 0.3 / 0.5): RK4 P&C ratio 31.94..32.0 in real time, 27.2..35.7 in imaginary time at ||H||tau = 0.5 (the x^6 term is visible; the check uses x <= 0.4 there) - acceptance 0.7*32; tdvp_vmf with ivp_rtol 1e-8 / ivp_atol 1e-10: error <= 1.5e-9 - bound 1e-7; tdvp_ps on complete bonds and tdvp_ps2 from a full-rank state: error <= 6e-12 (Krylov) - bound 1e-9",
-    "one-site projector splitting is exact only when at every edge one side's basis is complete in the sector (rank == number of sub-tree states, or of remaining states, that the sector allows; for models without quantum numbers this is rank == min(dim sub-tree, dim rest)); otherwise it is a second-order scheme: ratio judged at ||H||h in [0.05, 0.1] where a second-order scheme showed >= 7.3 and a first-order one <= 4.1 in calibration; acceptance 0.7*8",
-    "conservation (E): |norm drift| <= 1e-6 k, |energy drift| <= 1e-6 k ||H|| after k <= 5 real-time steps of tdvp_ps at a truncated bond dimension (the Krylov kernel stops at successive-iterate agreement rtol 1e-5 / atol 1e-8; calibrated drift <= 1e-9)",
-    "linear tree vs chain: states related by renormalizer.tn.tree.from_mps; both implementations within their own bound of the dense reference and within the sum of the bounds of each other; RK4 P&C additionally within 1e-9 (both are the same Taylor polynomial)",
-    "auxiliary space: BasisTree.add_auxiliary_space on models without multi-DoF basis sets, prod(d) <= 16; H given as TTNO on the physical tree (as the repository's own thermal test does) or on the doubled tree; tdvp_ps2 with the physical-tree TTNO dies in the unused diagonal of hop_expr2 (KeyError from opt_einsum) - recorded as refusal class, the doubled-tree TTNO is used for that scheme",
-    "imaginary time: TTNS.evolve works on the object it is called on (no copy) - only the RETURNED object is judged, against the reference computed from the dense vector taken before the call (aliasing belongs to C13; recorded as class observed:imag-time-in-place)",
-    "prod(d) <= 150, <= 10 nodes; GPU backend, dump-to-disk and adaptive stepping (not offered by the tree code) not exercised",
+    "real Hermitian operators only (TTNO asserts 'complex operator not supported yet'); physical basis sets with nbas >= 2 (todense squeezes size-1 axes); quantum-number labels >= 0 (TTNS.random, the only sector-aware random constructor, skips blocks by comparing labels with qntot)",
+    "bond dimensions sufficient to hold the result: TTNS.random with limit prod(d), canonicalise + lossless compress; the Schmidt ranks of the dense vector at every edge equal the bond dimensions (checked per case), compress_config fixed with limit 1e6, normalize=False for the order/exactness oracles, fresh EvolveConfig and CompressConfig for every call",
+    "calibration on the unchanged tree (throw-away script, 30 + 320 models over all 10 tree kinds, e(h), e(h/2), ratio per scheme, real and imaginary time): RK4 P&C ratio 31.94..32.00 in real time and 27.2..35.7 in imaginary time at ||H||tau = 0.5 (the x^6 term is visible there; the check uses tau <= 0.4) - acceptance 0.7*32 = 22.4, e(h) <= 10 x^5; tdvp_vmf with ivp_rtol 1e-8 / ivp_atol 1e-10 at ||H||h <= 0.3: error 2e-12..1.5e-9 - bound 1e-7; tdvp_ps on complete bonds and tdvp_ps2 from a full-rank state at ||H||h = 0.3: error <= 6e-12 (Krylov) - bound 1e-9",
+    "one-site projector splitting is exact only when at every edge one side's basis is complete in the sector (Schmidt rank == number of sub-tree states, or of remaining states, that the sector allows; without quantum numbers: rank == min(dim sub-tree, dim rest)): 27/27 such calibration states gave errors <= 6e-12; otherwise (12 calibration states) it is an order-limited splitting scheme, declared second order (symmetric forward + backward sweep); the ratio is judged at ||H||h in [0.04, 0.06]: 200 searched states gave 7.62..8.6 (one 14.3) with a symmetric sweep and 3.93..4.11 where the implementation is only first order - acceptance 0.7*8 = 5.6",
+    "conservation (E): |norm drift| <= 1e-6 k, |energy drift| <= 1e-6 k ||H|| after k <= 5 real-time steps (||H||h in {0.1, 0.5, 1}) of tdvp_ps at a truncated bond dimension (the Krylov kernel stops at successive-iterate agreement rtol 1e-5 / atol 1e-8; observed drift <= 5e-15)",
+    "splitting (D): error of two half steps <= 2.5 e^{x} e(h/2) + local bound (imaginary time: exp(-tau H) amplifies relative errors by at most e^{x})",
+    "linear tree vs chain: states related by renormalizer.tn.tree.from_mps; the tree result within its bound of the dense reference and, when the chain result is within its own bound, within the sum of the bounds of each other; RK4 P&C within 1e-9 (both are the same Taylor polynomial; observed 2e-15)",
+    "auxiliary space: BasisTree.add_auxiliary_space on models without multi-DoF basis sets, prod(d) <= 16; H given as TTNO on the physical tree (as the repository's own thermal test does) or on the doubled tree; tdvp_ps2 with the physical-tree TTNO dies in the unused diagonal of hop_expr2 (KeyError from opt_einsum: the output names auxiliary indices no operand carries) - API gap recorded as class observed:ps2-refuses-physical-tree-ttno-on-aux-state, the doubled-tree TTNO is used for that scheme",
+    "imaginary time: TTNS.evolve works on the object it is called on (ttns = self, no copy), so the projector-splitting schemes return their input object - only the RETURNED object is judged, against the reference computed from the dense vector taken before the call (aliasing belongs to C13; recorded as class observed:imag-time-in-place)",
+    "cost limits: tdvp_vmf is left out for trees with > 7 nodes in the quick tier; tdvp_ps2 on trees with arity-3 nodes and >= 6 nodes (seconds per step: optimal contraction-path search in hop_expr2) runs in one time mode only (quick) and is replaced in the D/F/history extras",
+    "prod(d) <= 150, <= 10 nodes; GPU backend, dump-to-disk and adaptive stepping (not offered by the tree code) not exercised; general complex steps are outside the property (TTNS.evolve keeps only the imaginary part)",
 ]
 
 EXACT_BOUND = {"tdvp_vmf": 1e-7, "tdvp_ps": 1e-9, "tdvp_ps2": 1e-9}
@@ -48,8 +50,8 @@ def plan(tier):
     if tier == "quick":
         base.update({"ncases": 96, "min_nontrivial": 150, "required_counters": {"oracle": 900, "ratios_measured": 60}})
     else:
-        base.update({"ncases": 1600, "min_nontrivial": 2500,
-                     "required_counters": {"oracle": 15000, "ratios_measured": 1000}})
+        base.update({"ncases": 3200, "min_nontrivial": 6000,
+                     "required_counters": {"oracle": 30000, "ratios_measured": 2000}})
     return base
 
 
@@ -109,12 +111,15 @@ def common_checks(ctx, tm, sc, imag, s_in, handed, out, qntot, scale):
 
 
 def step_size(ctx, sc, order, imag):
-    u = float(ctx.rng.uniform(0.6, 1.0))
+    """||H|| h of one step.  Over all oracles the steps span 0.04 .. 1.0."""
+    u = float(ctx.rng.uniform(0.0, 1.0))
     if order is None:
-        return (0.15 if sc == "tdvp_vmf" else 0.3) * u
+        if sc == "tdvp_vmf":
+            return 0.15 * (0.6 + 0.4 * u)           # cost: ~ 20 derivative evaluations x nodes x 20 ms
+        return 0.3 * (0.2 + 0.8 * u)                 # [0.06, 0.3]
     if order == 2:
-        return 0.1 * u if u > 0.75 else 0.1 * (u + 0.25)       # [0.085, 0.1]: asymptotic regime of the h^3 term
-    return (0.4 if imag else 0.5) * u
+        return 0.04 + 0.02 * u                       # [0.04, 0.06]: asymptotic regime of the h^3 term (see ASSUMPTIONS)
+    return (0.4 if imag else 0.5) * (0.5 + 0.5 * u)  # RK4: [0.2, 0.4] imaginary, [0.25, 0.5] real time
 
 
 def ps_order(complete):
@@ -138,6 +143,11 @@ def oracle_A(ctx, tm, sc, s0, psi, qntot, imag, complete, state_cls="full"):
     e1 = rel_err(out, tm.order, ref)
     moved = float(np.linalg.norm(ref - psi)) >= 1e-3 * max(float(np.linalg.norm(psi)), 1e-300)
     key = (sc, mode, tm.shape_key, tm.model_key, state_cls, round(x, 3))
+    if order is None and not te.GROWS_BONDS[sc] and not te.fits(tm, ref, s0.bond_dims, qntot):
+        # the exact result needs a larger bond dimension than a scheme that cannot grow bonds was given: no
+        # exactness promised (does not happen for the generic full-rank states, whose ranks are the sector maxima)
+        ctx.count("exact-result-does-not-fit")
+        return e1, x
     ctx.count("oracle")
     if order is None:
         ctx.cls("A:exact")
